@@ -179,7 +179,11 @@ func genField(t *rapid.T, e *spec.Entry, fv reflect.Value, depth int, label stri
 		}
 		s := reflect.MakeSlice(fv.Type(), n, n)
 		for i := 0; i < n; i++ {
-			s.Index(i).Set(genElem(t, e, fv.Type().Elem(), depth, fmt.Sprintf("%s[%d]", label, i)))
+			l := fmt.Sprintf("%s[%d]", label, i)
+			if fv.Type().Elem().Kind() == reflect.Ptr && coin(t, 1, 8, l+"/nil") {
+				continue // a nil pointer element is a legal Go value
+			}
+			s.Index(i).Set(genElem(t, e, fv.Type().Elem(), depth, l))
 		}
 		fv.Set(s)
 	case spec.CardMap:
@@ -195,6 +199,10 @@ func genField(t *rapid.T, e *spec.Entry, fv reflect.Value, depth int, label stri
 		start := rapid.IntRange(0, len(keyPool)-1).Draw(t, label+"/k0")
 		for i := 0; i < n; i++ {
 			k := keyPool[(start+i)%len(keyPool)]
+			if fv.Type().Elem().Kind() == reflect.Ptr && coin(t, 1, 8, label+"["+k+"]/nil") {
+				m.SetMapIndex(reflect.ValueOf(k), reflect.Zero(fv.Type().Elem())) // key present, nil value
+				continue
+			}
 			m.SetMapIndex(reflect.ValueOf(k), genElem(t, e, fv.Type().Elem(), depth, label+"["+k+"]"))
 		}
 		fv.Set(m)
